@@ -104,3 +104,160 @@ Definition snappy_decode (x : bytes) : res (option bytes) :=
       if 2147483647 <? zn then Ok None
       else decode_loop x rest (nlen rest) [] 0 zn
   end.
+
+(* ------------------------------------------------------------------ *)
+(* Encoder (snappy_encode, encode_block, emit_literal, emit_copy)      *)
+(* The input block is loaded into a trie for the random accesses       *)
+(* (load32 / load64 / xp[i]); the uint16 hash table is a trie as well. *)
+(* ------------------------------------------------------------------ *)
+Definition MAX_TABLE_SIZE : N := 2048.
+Definition INPUT_MARGIN : N := 15.
+Definition MIN_BLOCK_SIZE : N := 17.
+Definition MAX_BLOCK_SIZE : N := 65536.
+
+(* hash32: (x * 0x1e35a7bd) >> shift on uint32 (the argument is truncated) *)
+Definition hash32 (x shift : N) : N :=
+  (((x mod two32) * 506832829) mod two32) / 2 ^ shift.
+
+Definition ld32 (m : trie) (i : N) : N :=
+  tget i m + 256 * tget (i + 1) m + 65536 * tget (i + 2) m + 16777216 * tget (i + 3) m.
+Definition ld64 (m : trie) (i : N) : N := ld32 m i + 4294967296 * ld32 m (i + 4).
+
+Fixpoint load_trie (l : bytes) (i : N) (m : trie) : trie :=
+  match l with
+  | [] => m
+  | b :: r => load_trie r (N.succ i) (tset i b m)
+  end.
+
+(* emit_literal: tag bytes ++ literal *)
+Definition emit_literal (lit : bytes) : bytes :=
+  let n := nlen lit - 1 in
+  (if n <? 60 then [n * 4]
+   else if n <? 256 then [240; n]
+   else [244; n mod 256; (n / 256) mod 256]) ++ lit.
+
+(* emit_copy *)
+Fixpoint emit_copy_loop (fuel : nat) (off len : N) : bytes * N :=
+  match fuel with
+  | O => ([], len)
+  | S f =>
+      if 68 <=? len then
+        let '(bs, len') := emit_copy_loop f off (len - 64) in
+        (254 :: off mod 256 :: (off / 256) mod 256 :: bs, len')
+      else ([], len)
+  end.
+
+Definition emit_copy (off len : N) : bytes :=
+  let '(b1, len1) := emit_copy_loop (N.to_nat (len / 64)) off len in
+  let '(b2, len2) :=
+    if 64 <? len1 then ([238; off mod 256; (off / 256) mod 256], len1 - 60) else ([], len1) in
+  b1 ++ b2 ++
+  (if (12 <=? len2) || (2048 <=? off)
+   then [((len2 - 1) * 4 + 2) mod 256; off mod 256; (off / 256) mod 256]
+   else [((off / 256) * 32 + (len2 - 4) * 4 + 1) mod 256; off mod 256]).
+
+(* while (pos < xn && xp[chk] == xp[pos]) chk++, pos++;  returns pos *)
+Fixpoint match_extend (fuel : bytes) (m : trie) (xn chk pos : N) : N :=
+  match fuel with
+  | [] => pos
+  | _ :: f =>
+      if (pos <? xn) && (tget chk m =? tget pos m) then match_extend f m xn (chk + 1) (pos + 1)
+      else pos
+  end.
+
+(* the inner for(;;) of the outer loop: None = goto finish;
+   Some (pos, cand, next, table) = break *)
+Fixpoint enc_scan (fuel : bytes) (m : trie) (limit shift : N)
+                  (npos skip next : N) (table : trie) : option (N * N * N * trie) :=
+  match fuel with
+  | [] => None
+  | _ :: f =>
+      let pos := npos in
+      let npos' := pos + skip / 32 in
+      let skip' := skip + skip / 32 in
+      if limit <? npos' then None
+      else
+        let cand := tget next table in
+        let table' := tset next pos table in
+        let next' := hash32 (ld32 m npos') shift in
+        if ld32 m pos =? ld32 m cand then Some (pos, cand, next', table')
+        else enc_scan f m limit shift npos' skip' next' table'
+  end.
+
+(* the second for(;;): emits copies.
+   inl (out, emit) = goto finish; inr (pos, next, table, out, emit) = break *)
+Fixpoint enc_copies (fuel : bytes) (m : trie) (xn limit shift : N)
+                    (pos cand : N) (table : trie) (out : list bytes)
+  : (list bytes * N) + (N * N * trie * list bytes * N) :=
+  match fuel with
+  | [] => inl (out, pos)
+  | _ :: f =>
+      let base := pos in
+      let pos1 := match_extend fuel m xn (cand + 4) (pos + 4) in
+      let out1 := emit_copy (base - cand) (pos1 - base) :: out in
+      if limit <=? pos1 then inl (out1, pos1)
+      else
+        let x := ld64 m (pos1 - 1) in
+        let prev := hash32 x shift in
+        let table1 := tset prev (pos1 - 1) table in
+        let cur := hash32 (x / 256) shift in
+        let cand1 := tget cur table1 in
+        let table2 := tset cur pos1 table1 in
+        if negb (x / 256 =? ld32 m cand1) then
+          inr (pos1 + 1, hash32 (x / 65536) shift, table2, out1, pos1)
+        else enc_copies f m xn limit shift pos1 cand1 table2 out1
+  end.
+
+(* the outer for(;;); [erest] = the input from offset [emit] on.
+   Returns the output chunks (most recent first) and the final emit / erest. *)
+Fixpoint enc_outer (fuel : bytes) (m : trie) (xn limit shift : N)
+                   (pos next : N) (table : trie) (emit : N) (erest : bytes) (out : list bytes)
+  : list bytes * N * bytes :=
+  match fuel with
+  | [] => (out, emit, erest)
+  | _ :: f =>
+      match enc_scan fuel m limit shift pos 32 next table with
+      | None => (out, emit, erest)
+      | Some (pos1, cand, next1, table1) =>
+          let out1 := emit_literal (take_n (pos1 - emit) erest) :: out in
+          match enc_copies fuel m xn limit shift pos1 cand table1 out1 with
+          | inl (out2, emit2) => (out2, emit2, drop_n (emit2 - emit) erest)
+          | inr (pos2, next2, table2, out2, emit2) =>
+              enc_outer f m xn limit shift pos2 next2 table2 emit2 (drop_n (emit2 - emit) erest) out2
+          end
+      end
+  end.
+
+(* while (size < MAX_TABLE_SIZE && size < xn) { size *= 2; shift--; } *)
+Fixpoint enc_shift (fuel : nat) (size shift xn : N) : N :=
+  match fuel with
+  | O => shift
+  | S f => if (size <? MAX_TABLE_SIZE) && (size <? xn) then enc_shift f (size * 2) (shift - 1) xn
+           else shift
+  end.
+
+(* encode_block: output chunks, most recent first *)
+Definition encode_block (blk : bytes) (out : list bytes) : list bytes :=
+  let xn := nlen blk in
+  let m := load_trie blk 0 TLeaf in
+  let shift := enc_shift 8 256 24 xn in
+  let next := hash32 (ld32 m 1) shift in
+  let '(out1, emit, erest) := enc_outer blk m xn (xn - INPUT_MARGIN) shift 1 next TLeaf 0 blk out in
+  if emit <? xn then emit_literal erest :: out1 else out1.
+
+Fixpoint encode_blocks (fuel : nat) (x : bytes) (xn : N) (out : list bytes) : list bytes :=
+  match fuel with
+  | O => out
+  | S f =>
+      if MAX_BLOCK_SIZE <=? xn then
+        encode_blocks f (drop_n MAX_BLOCK_SIZE x) (xn - MAX_BLOCK_SIZE)
+                      (encode_block (take_n MAX_BLOCK_SIZE x) out)
+      else if 0 <? xn then
+        (if MIN_BLOCK_SIZE <=? xn then encode_block x out else emit_literal x :: out)
+      else out
+  end.
+
+(* snappy_encode *)
+Definition snappy_encode (x : bytes) : bytes :=
+  let xn := nlen x in
+  concat (rev (encode_blocks (S (N.to_nat (xn / MAX_BLOCK_SIZE))) x xn [varint32_write (xn mod two32)])).
